@@ -102,10 +102,12 @@ def data_strat(cfg, numbers):
 def history_case(draw, big=False):
     cfg = draw(el_config())
     numkind = draw(st.sampled_from(["int", "float", "float", "huge"]))
+    if cfg["el"] == "VMC" and draw(st.integers(0, 3)) == 0:
+        numkind = "offset"      # a large common magnitude and a small spread: squares beyond 2**53
     if cfg["el"] in ("Count", "StoreFilled", "GroupBy", "Histogram", "VMC"):
         # (VarianceMeanCount squares its input: 1e300**2 overflows)
         numkind = "int" if numkind == "huge" else numkind
-    numbers = {"int": small_ints, "float": nice_floats,
+    numbers = {"int": small_ints, "float": nice_floats, "offset": st.integers(10 ** 9 - 20, 10 ** 9 + 20),
                "huge": st.one_of(huge_floats, nice_floats)}[numkind]
     max_ops = 12 if numkind == "huge" else (80 if big else 30)
     ops = []
@@ -254,6 +256,10 @@ def expected(cfg, filled):
         var *= corr
         scale = float(mean_sq + mean * mean) * float(corr)
         tol = 8 * EPS * max(n, 2) * scale + 1e-300
+        if cfg["sums"] == "DSum" and all(isinstance(d, int) and not isinstance(d, bool) for d in datas):
+            # integers are squared exactly and DSum adds exactly: what remains is the 28-digit Decimal
+            # arithmetic of the two means and the conversion of the result
+            tol = 1e-22 * scale + 4 * EPS * abs(float(var)) + 1e-300
 
         def ok(got):
             try:
